@@ -287,4 +287,13 @@ example : keysMatch (.text [97]) (.text [97]) = true ∧ keysMatch .null .null =
 example : (Spec.Join.batch default exQ (exJoined.map (fun l => ⟨true, l⟩))
     [[⟨true, ⟨[], [.text [97], .int 7, .null]⟩⟩, ⟨true, ⟨[], [.text [122], .int 8, .null]⟩⟩]]).isSome = true := by decide
 
+/-- **finding D45, seen through the join**: "equal join keys" is the derived equality of values — an INT key and a REAL
+key holding the same number are NOT paired, although `WHERE t.v = u.r` holds for them (`compareValues` is numeric:
+`Props/C16.lean` `numbers_compare_by_value`). The specification, the model and the code agree on this; the sentence of C16
+("any two values … joined are equal … an INT and a REAL of equal value are not ordered by their type") does not. Kept as
+the open finding D45 (class `D45:join-int-real` in the C05 check). -/
+theorem d45_join_int_real_not_paired :
+    keysMatch (.int 3) (.real 0x4008000000000000) = false ∧ compareValues (.int 3) (.real 0x4008000000000000) = .eq := by
+  decide
+
 end Sqlgrep.Props.C05
